@@ -353,6 +353,27 @@ PROPS.update({
     },
 })
 
+PROPS.update({
+    "C18": {
+        "engine": "c18",
+        "level": "exploration",
+        "profiles": {"quick": ["par"], "thorough": ["par", "tsan"]},
+        "pre": [{"profile": "release", "engine": "c18ref"}],
+        "budget": {"quick": 14, "thorough": 150},
+        "claim": "A seed-derived corpus (1, 2 and 3-8 channels; exhaustive and fast channel correlation; mid-side on/off; LPC on/off; block sizes 256-4096; all writer front-ends) is first encoded by the harness built WITHOUT the rayon feature, one hash per case. The harness built WITH flac-codec's rayon + verif-hooks features then encodes every case inside rayon pools of 1, 2, 3, 4, 8 and 16 threads, repeatedly, with seeded 0-200 us delays injected at the start of every parallel task, and requires byte-identical output. The hook event log (task kind, begin/end, thread, global order taken under the log's lock) is checked after every encode: frames never overlap, every task begin has its end on the same thread, the number of subframe tasks per frame is the expected one, and the evidence reports how many frames had truly overlapping candidate tasks on different threads and how many distinct interleaving signatures were observed. Thorough adds a ThreadSanitizer build (-Zbuild-std) of the same workload (any report = violation). Schedules are observed and perturbed, not enumerated.",
+        "note": "all schedules cannot be enumerated for a work-stealing pool; reach comes from pool sizes x repetitions x injected delays x 16 concurrently running shard processes; the serial reference comes from a separate build of the same source tree",
+        "technique": "runtime monitoring: differential check against the serial build under schedule perturbation, trace-specification checker over the hook event log, ThreadSanitizer in the thorough tier",
+        "design_ref": "DESIGN.md section 4 C18, section 3.4",
+        "rule": "a case = (corpus case, pool size, repetition, perturbation seed); NON-TRIVIAL when the parallel bytes were compared with the serial hash; DISTINCT by (case, pool size, repetition, pass)",
+        "quotas": {
+            "all six pool sizes": lambda m: keys(m, "pool_threads") == 6,
+            ">= 20 distinct interleaving signatures": lambda m: keys(m, "signature") >= 20,
+            "truly overlapping tasks on >= 10% of multi-task frames": lambda m: h(m, "frames_with_truly_overlapping_tasks") * 10 >= h(m, "frames_with_two_or_more_leaf_tasks") > 0,
+        },
+        "assumptions": ["the hook log order is the observation order (sequence numbers are taken under the same lock as the append)"],
+    },
+})
+
 
 # properties not (yet) claimed: id -> reason
 NOT_APPLICABLE = {f"C{n:02d}": "check not built yet (framework under construction; see DESIGN.md section 4 for the planned monitor)" for n in range(1, 21)}
